@@ -368,6 +368,29 @@ class _Flow:
         return self.effects(st, S)
 
 
+def _foreign_names(fn):
+    """-> (names invoked on objects OTHER than self: `x.name = ...` / `x.name(...)` with x anything but the bare
+    `self`, names invoked through self: `self.name = ...` / `self.name(...)`)"""
+    own, through_self = set(), set()
+
+    def is_self(x):
+        return isinstance(x, ast.Name) and x.id == "self"
+    for node in _walk_local(fn):
+        if isinstance(node, (ast.Assign, ast.AugAssign)):
+            for t in (node.targets if isinstance(node, ast.Assign) else [node.target]):
+                for t2 in (t.elts if isinstance(t, (ast.Tuple, ast.List)) else [t]):
+                    if isinstance(t2, ast.Attribute):
+                        (through_self if is_self(t2.value) else own).add(t2.attr)
+        if isinstance(node, ast.Call) and isinstance(node.func, ast.Attribute):
+            (through_self if is_self(node.func.value) else own).add(node.func.attr)
+        if isinstance(node, ast.Call) and isinstance(node.func, ast.Name) and node.func.id == "setattr" \
+                and len(node.args) >= 2:
+            # setattr(x, "name", v): by name when it is a literal, otherwise any name
+            a = node.args[1]
+            own.add(a.value if isinstance(a, ast.Constant) and isinstance(a.value, str) else "*")
+    return own, through_self
+
+
 GETTERS = {"created_at": "created", "updated_at": "updated"}
 
 
@@ -898,6 +921,37 @@ def scan_repo(repo):
             raise ExtractError("%s.%s defined twice" % (c, n))
         seen.add((c, n))
         members.append((c, n, k, outs))
+    # members that hand work to a stamping member of ANOTHER object (`prop.values = data`, `self.dimension_link.unit
+    # = unit`, `newentity.position = position`): the names, among those that stamp in some class, invoked on anything
+    # but the bare `self` - directly or in a method run through self (closure over the MRO)
+    stamping = set(n for _, n, k, outs in members if any(t != "none" for _, t in outs))
+    raw = {}
+    for c in order:
+        for m in fns[c]:
+            decs = [ast.unparse(d) for d in m.decorator_list]
+            if "property" in decs:
+                continue
+            key = (c, m.name + "__deleter" if any(d.endswith(".deleter") for d in decs) else m.name)
+            own, thru = _foreign_names(m)
+            if "*" in own:
+                own = set(stamping)
+            raw[key] = (own & stamping, thru)
+    foreign = {k: set(v[0]) for k, v in raw.items()}
+    for _round in range(10):
+        changed = False
+        for (c, n), (_, thru) in raw.items():
+            for callee in thru:
+                for c2 in mro[c]:
+                    hit = [k for k in ((c2, callee), (c2, callee + "__deleter")) if k in raw]
+                    if hit:
+                        for k in hit:
+                            if not foreign[k] <= foreign[(c, n)]:
+                                foreign[(c, n)] |= foreign[k]
+                                changed = True
+                        break
+        if not changed:
+            break
+    scan_repo.foreign = {k: sorted(v) for k, v in foreign.items()}
     scan_repo.creation = scan_creation(repo, classes, fns)
     return classes, order, members, mro, getters, forces
 
@@ -958,12 +1012,17 @@ def extract(repo):
     L.append("  kind : MKind")
     L.append("  /-- every (exit, touch state) some path through the body can reach -/")
     L.append("  outcomes : List Outcome")
+    L.append("  /-- names of members that stamp in some class and that the body invokes on an object OTHER than the bare")
+    L.append("  `self` (`x.name = ...`, `x.name(...)`, directly or in a method run through `self`): through them a call")
+    L.append("  may stamp another object, as that object's own entry says.  By name: the class of `x` is not known. -/")
+    L.append("  foreign : List Mem")
     L.append("  deriving DecidableEq, Repr")
     L.append("")
     L.append("def members : List Member := [")
     rows = []
     for c, n, k, outs in members:
-        rows.append("  ⟨.%s, .%s, .%s, [%s]⟩" % (c, _mem_id(n), k, ", ".join("⟨.%s, .%s⟩" % o for o in outs)))
+        rows.append("  ⟨.%s, .%s, .%s, [%s], [%s]⟩" % (c, _mem_id(n), k, ", ".join("⟨.%s, .%s⟩" % o for o in outs),
+                                                     ", ".join("." + _mem_id(x) for x in scan_repo.foreign.get((c, n), []))))
     L.append(",\n".join(rows))
     L.append("]")
     L.append("")
